@@ -326,7 +326,9 @@ def extra(ctx):
           'class': ['re-batching pipeline', 'two aggregating stages, states as generator/iterator',
                     'upstream aggregate, downstream threads (threads)', 'upstream aggregate, downstream threads (sched)'],
           'merge_states': ['list/default', 'gen/default', 'iter/default', 'gen+strict/default', 'gen/aggregate']}
+  X.deque_selfcheck(ctx)
   need.update(X.SL_REQUIRED)
+  need['sizes:deque-selfcheck'] = ['bounded cache smaller than a refill']
   need['sizes:longer-than-every-bound'] = ['q_iter', 'q_batch', 'interleaved', 'threads']
   need['sizes:strategy'] = ['q_iter', 'q_batch', 'interleaved', 'threads', 'q_iter:bounded', 'interleaved:bounded']
   for k, v in _OBS_COV.items():          # coverage that is only known after the runs (collected by nontrivial())
